@@ -1,4 +1,4 @@
-import Originium.Model.DiskRecover
+import Originium.Model.DiskProgMain
 /-! # C03 — acknowledged commits survive a crash at any point, and Open always recovers
 
 Process-crash model: the disk after a kill is the disk after some prefix of the sequence of
@@ -61,8 +61,69 @@ example :
       .op (.tmpCreate 7), .op (.tmpWrite 7 [e]), .op (.tmpSync 7), .op (.publish 7), .op (.walRemove 1)]).isSome = true := by
   decide
 
+/-! ## every execution of the modelled engine, not only the recorded traces
+
+`Prog` (`Model/DiskProg.lean`) is the engine's file-system program: the foreground (commits with
+rotation, `Close`, `Open` with its wal replay) and the flusher goroutine (flushes, compactions),
+interleaved in every possible way, with a crash at every point and recoveries — crashed
+recoveries included.  The recorded traces are checked to be traces of this program by the `crash`
+suite.  For the program the premise "the trace obeys the rules" is a theorem. -/
+
+/-- whatever the schedule, wherever crashes and recoveries happened: the next file-system event the
+    modelled engine emits is accepted by the rule book -/
+theorem C03_program_obeys_rules {s : Prog.PSt} (h : Prog.Reach s) {e : Ev} (he : Prog.Emits s e) :
+    ∃ t', accept s.t e = some t' := Prog.never_rejected h he
+
+/-- at every reachable point (= at every crash point of every execution): Open yields an ordinary
+    state of the storage model and every acknowledged entry is visible unless replaced by a newer
+    write of the same key, which itself was written by a begun transaction -/
+theorem C03_program_crash_anywhere (mayContain : TableM → Bytes → Bool)
+    (hbloom : ∀ t e, e ∈ t.entries → mayContain t e.key.user = true)
+    {s : Prog.PSt} (h : Prog.ReachP s) (bs : Nat) :
+    DB.Inv (recover bs s.t.d) ∧
+    ∀ e ∈ s.t.acked, ∀ r, s.t.low ≤ r → e.key.ts ≤ r →
+      ∃ x, DB.get mayContain (recover bs s.t.d) e.key.user r = some x ∧ e.key.ts ≤ x.key.ts ∧ x.key.ts ≤ r ∧
+        x.key.user = e.key.user ∧ ∃ b ∈ s.t.batches, x ∈ b := by
+  have ht := Prog.reachP_tinv h
+  refine ⟨recover_inv bs ht.inv ht.wf, ?_⟩
+  intro e he r hr her
+  have hk : Kept s.t.d s.t.low e := by
+    rcases ht.inv.durable e he with h1 | h1 | h1
+    · exact Or.inl (synced_sub_all h1)
+    · exact Or.inr (Or.inl h1)
+    · exact Or.inr (Or.inr h1)
+  obtain ⟨x, hx, h1, h2, h3, h4⟩ := recover_visible mayContain hbloom bs ht.inv ht.wf e hk r hr her
+  exact ⟨x, hx, h1, h2, h3, ht.begun x h4⟩
+
+/-- non-vacuity: the program opens an empty directory, commits, rotates, flushes through a
+    temporary file, compacts, is killed in the middle of the next flush, recovers (replaying the
+    wal that was being flushed), and closes — every step is a step of the program and accepted -/
+example :
+    let e1 : E := ⟨⟨[107], 1⟩, [1], false, 1⟩
+    let e2 : E := ⟨⟨[107], 2⟩, [2], false, 2⟩
+    let run (evs : List Prog.PEv) (s : Prog.PSt) : Option Prog.PSt :=
+      evs.foldlM (fun s pe => match Prog.pstep s pe with | .ok s' => some s' | .error _ => none) s
+    (do
+      let s ← run [.order [], .ev (.op (.walCreate 1)), .ev (.commit 1 [e1]), .ev (.op (.walSync 1)),
+        .ev (.op (.walCreate 2)), .ev (.ack [e1]),
+        .ev (.op (.tmpCreate 7)), .ev (.op (.tmpWrite 7 [e1])), .ev (.op (.tmpSync 7)), .ev (.op (.publish 7)),
+        .ev (.op (.walRemove 1)),
+        .plan [7] 8, .ev (.raise 0), .ev (.op (.tmpCreate 8)), .ev (.op (.tmpWrite 8 [e1])), .ev (.op (.tmpSync 8)),
+        .ev (.op (.publish 8)), .ev (.op (.tableRemove 7)),
+        .ev (.commit 2 [e2]), .ev (.op (.walSync 2)), .ev (.op (.walCreate 3)), .ev (.ack [e2]),
+        .ev (.op (.tmpCreate 9)), .ev (.op (.tmpWrite 9 [e2]))] Prog.PSt.init
+      -- killed here
+      let s := { s with m := Prog.crashMem s.m }
+      run [.order [2, 3], .ev (.op (.walCreate 4)), .ev (.op (.walAppend 4 [e2])), .ev (.op (.walSync 4)),
+        .ev (.op (.walRemove 2)), .ev (.op (.walRemove 3)), .ev (.op (.tmpRemove 9)),
+        .ev (.op (.tmpCreate 9)), .ev (.op (.tmpWrite 9 [e2])), .ev (.op (.tmpSync 9)), .ev (.op (.publish 9)),
+        .ev (.op (.walRemove 4))] s).isSome = true := by
+  decide
+
 #print axioms C03_every_crash_point
 #print axioms C03_open_recovers
 #print axioms C03_acked_visible
 #print axioms C03_nothing_invented
+#print axioms C03_program_obeys_rules
+#print axioms C03_program_crash_anywhere
 end Props
